@@ -122,6 +122,23 @@ def run_case(case):
             raise again.exc
         counters["second_runs_on_same_sampler"] += 1
         recorded.judge_history(again, where + " [second fresh run on the same sampler object]", viol, counters, mutated=again.rec.mutated)
+    if cfg["sampler"] in ("smc", "emcee_smc") and g.random() < 0.5:
+        # ... and a further fresh run on that object under the *other* kind of schedule (adaptive <-> fixed): nothing the
+        # earlier searches computed may show up in this run's record
+        import copy as _copy
+
+        prev = _copy.copy(base)
+        o2 = {k: v for k, v in cfg["opts"].items() if k in ("n_final_samples",)}
+        if cfg["opts"].get("adaptive", True):
+            o2.update(adaptive=False, n_steps=int(g.integers(2, 6)))
+        else:
+            o2.update(adaptive=True, target_efficiency=float(g.uniform(0.5, 0.9)))
+        prev.cfg = dict(cfg, opts=o2)
+        other = recorded.record_again(prev, rng=np.random.default_rng(cfg["rng_seed"] + 29) if cfg["sampler"] == "smc" else None)
+        if other.exc is not None:
+            raise other.exc
+        counters["further_runs_under_the_other_schedule_kind"] += 1
+        recorded.judge_history(other, where + f" [further fresh run on the same sampler object with opts={o2}]", viol, counters, mutated=other.rec.mutated)
     sched = "fixed" if not cfg["opts"].get("adaptive", True) else "adaptive"
     sig = f"{cfg['sampler']}|{cfg['xp']}|{cfg['dtype']}|{sched}|{T}|{resumed_from}"
     seen = {}
